@@ -88,6 +88,10 @@ func (h *podEventHandler) OnDelete(obj interface{}) {
 
 func (h *podEventHandler) updatePod(oldPod, newPod *corev1.Pod) {
 	if util.IsPodTerminated(newPod) {
+		if oldPod != nil && oldPod.UID != newPod.UID && assignedPod(oldPod) {
+			// the update replaces the pod by a re-created one (same name, another uid): the old pod is gone too
+			h.deletePod(oldPod)
+		}
 		h.deletePod(newPod)
 		return
 	}
